@@ -53,6 +53,12 @@ var c16Inits = []c16Init{
 	{name: "oneliner", src: "a := 1", breaks: []int{1}},
 	{name: "oneliner-bos", src: "a := [1, 2]", bos: true},
 	{name: "error", src: "func f() {\n  raise(\"E\", \"d\", {\"k\": [1]})\n}\nf()\nb := 2"},
+	// suspended in scopes whose chain does not end in the global scope: the
+	// default value of a constructor parameter is evaluated in the fresh root
+	// scope that new() makes for init, and the second call of a chained call
+	// o.f().g() starts from the scope holding the result of the first
+	{name: "ctor-default", src: "Counter := {\n  \"init\" : func (\n    start =\n      10\n  ) {\n    this.value := start\n  }\n}\nc := new(Counter)\nlog(c.value)", breaks: []int{4}},
+	{name: "chained-call", src: "o := {\n  \"f\" : func () {\n    return {\n      \"g\" : func () {\n        return 1\n      }\n    }\n  }\n}\nr := o.f().g()\nlog(r)", breaks: []int{5}},
 }
 
 type c16Sess struct {
